@@ -16,6 +16,7 @@ from fractions import Fraction
 from .core import AnalysisError
 from .poly import Rat, single_atom
 from .symeval import Evaluator, Arr, Opaque, scalar, materialise
+from .objeval import FullEvaluator
 
 
 class IndexMap:
@@ -50,9 +51,9 @@ class IndexMap:
         return i, j
 
 
-class E5(Evaluator):
+class E5(FullEvaluator):
     def __init__(self, mod, size_atoms=("dety_size", "detz_size")):
-        Evaluator.__init__(self, mod, inline=True)
+        FullEvaluator.__init__(self, mod, inline=True)
         self.size_atoms = set(size_atoms)
 
     def _np_call(self, name, args, kwargs, node):
@@ -94,7 +95,7 @@ class E5(Evaluator):
                 x = scalar(x)
                 out.append(self.clip_form(x, node))
             return Arr(out)
-        return Evaluator._np_call(self, name, args, kwargs, node)
+        return FullEvaluator._np_call(self, name, args, kwargs, node)
 
     @staticmethod
     def _is_max_clip(args):
